@@ -18,6 +18,11 @@
 //!     element texts shown; the same for Debug / Display / Hash / == of vectors, matrices and their views.
 //!     `sources.rs`: FromIterator / collect() fed from BORROWED sources with fewer / exactly as many / more elements
 //!     than needed: the source afterwards holds exactly the elements not placed in the vector.
+//!     `unwind.rs`: the unwinding dimension. Every operation above, the vectors' / matrices' map / map2 / map3 /
+//!     reduce / map_rows, FromIterator and the formatters are run with the user closure (or the element's own
+//!     Default / Debug / Display / PartialEq / Ord / Hash impl) panicking at its k-th call, for every k; the panic
+//!     must propagate, afterwards no element may be dropped / handed out twice or read after it was moved out;
+//!     leaks are allowed (labelled).
 //! (b) CONVERSIONS (arrays, tuples, iterators, map/zip, matrix arrays in both orders and both layouts,
 //!     transposition, layout change): id at output position k = id the documentation places there; nothing
 //!     cloned, dropped or even observed in transit; nothing leaked.
@@ -33,6 +38,7 @@ pub mod ledger;
 pub mod observers;
 pub mod shapes;
 pub mod sources;
+pub mod unwind;
 
 use ledger::{Anomaly, Ctx, St, Tracked};
 use shapes::*;
@@ -1118,6 +1124,37 @@ pub fn property() -> Property {
     per_vec_obs!(Uv, 2, "uv");
     per_vec_obs!(Uvw, 3, "uvw");
     const ALL: u64 = u64::MAX;
+    // the unwinding dimension: user closures / element impls that panic at their k-th call
+    macro_rules! per_vec_unwind {
+        ($V:ident, $n:expr, $sfx:literal, $q:expr) => {{
+            let total = unwind::unwind_iter_total($n);
+            let q: u64 = $q;
+            checks.push(Check {
+                name: concat!("unwind-iter-", $sfx),
+                about: "every operation of the adapters tables (by-ref and by-value consumers, std adapters, zip / chain / flatten pairs, element-comparing consumers, the Debug / == / hash observers, the vector's FromIterator) from every cursor state with the user closure or the element's own trait impl PANICKING at its k-th call, k from the first to the last call (the number of calls is measured on the deque model): the panic propagates (vkit::catch), the surviving iterators are used up and dropped, then the ledger shows no element dropped or handed out twice and no read of a yielded / dropped element; leaked elements are allowed and only labelled",
+                kind: Kind::Index { total, quick: q.min(total), thorough: (q.saturating_mul(40)).min(total), f: unwind::unwind_iter_case::<$V<Tracked>, $n> },
+            });
+            let total = unwind::vec_unwind_total($n);
+            checks.push(Check {
+                name: concat!("unwind-vec-", $sfx),
+                about: "map / map2 / map3 / reduce / reduce_min / reduce_max of the vector, FromIterator from owned and borrowed sources (panicking Default and panicking next), Display / {:#?} / == / hash / {:?} of as_slice with a panicking element impl, into_iter().map(f).collect::<V>(), with the panic at every call k: the panic propagates, no element is dropped twice or read after it was moved out; leaks allowed",
+                kind: Kind::Index { total, quick: total, thorough: total, f: unwind::vec_unwind_case::<$V<Tracked>, $n> },
+            });
+        }};
+    }
+    per_vec_unwind!(Vec2, 2, "vec2", ALL);
+    per_vec_unwind!(Vec3, 3, "vec3", ALL);
+    per_vec_unwind!(Vec4, 4, "vec4", ALL);
+    per_vec_unwind!(Vec8, 8, "vec8", 40_000);
+    per_vec_unwind!(Vec16, 16, "vec16", 30_000);
+    per_vec_unwind!(Vec32, 32, "vec32", 20_000);
+    per_vec_unwind!(Vec64, 64, "vec64", 16_000);
+    per_vec_unwind!(Extent2, 2, "extent2", ALL);
+    per_vec_unwind!(Extent3, 3, "extent3", ALL);
+    per_vec_unwind!(Rgb, 3, "rgb", ALL);
+    per_vec_unwind!(Rgba, 4, "rgba", ALL);
+    per_vec_unwind!(Uv, 2, "uv", ALL);
+    per_vec_unwind!(Uvw, 3, "uvw", ALL);
     per_vec_ext!(Vec2, 2, "vec2", ALL, ALL, ALL);
     per_vec_ext!(Vec3, 3, "vec3", ALL, ALL, ALL);
     per_vec_ext!(Vec4, 4, "vec4", ALL, ALL, ALL);
@@ -1155,6 +1192,22 @@ pub fn property() -> Property {
             });
         }};
     }
+    macro_rules! per_mat_unwind {
+        ($M:ty, $n:expr, $nn:expr, $name:expr) => {{
+            let total = unwind::mat_unwind_total($nn);
+            checks.push(Check {
+                name: $name,
+                about: "map / map2 / map_rows|map_cols of the matrix with a closure panicking at its k-th call, Display / {:#?} with a panicking element impl, every k: the panic propagates, no element is dropped twice or read after it was moved out; leaks allowed",
+                kind: Kind::Index { total, quick: total, thorough: total, f: unwind::mat_unwind_case::<$M, $n, $nn> },
+            });
+        }};
+    }
+    per_mat_unwind!(rm::Mat2<Tracked>, 2, 4, "unwind-row-mat2");
+    per_mat_unwind!(cm::Mat2<Tracked>, 2, 4, "unwind-col-mat2");
+    per_mat_unwind!(rm::Mat3<Tracked>, 3, 9, "unwind-row-mat3");
+    per_mat_unwind!(cm::Mat3<Tracked>, 3, 9, "unwind-col-mat3");
+    per_mat_unwind!(rm::Mat4<Tracked>, 4, 16, "unwind-row-mat4");
+    per_mat_unwind!(cm::Mat4<Tracked>, 4, 16, "unwind-col-mat4");
     per_mat_obs!(rm::Mat2<Tracked>, 2, 4, "observers-row-mat2");
     per_mat_obs!(cm::Mat2<Tracked>, 2, 4, "observers-col-mat2");
     per_mat_obs!(rm::Mat3<Tracked>, 3, 9, "observers-row-mat3");
@@ -1169,7 +1222,7 @@ pub fn property() -> Property {
     per_mat!(cm::Mat4<Tracked>, 4, 16, "conv-col-mat4", "views-col-mat4");
     Property {
         id: "C18",
-        rule: "iterator cases are histories over {next, next_back, len, size_hint, {:?}, ==twin, hash, drop-now} with a keep/drop decision of the consumer for every yielded element: the table enumerates every (start,end) x {front-first, back-first, alternating} x 3 consumer policies x 8 operations for each of the 13 vector types, random histories come from proptest byte tapes; a history is non-trivial when it pulls from both ends and the iterator is dropped with >= 1 element still inside, or when it formats/compares/hashes after >= 1 pull; conversion and view cases (finite, fully enumerated) are all non-trivial: every element is a distinct Tracked id; distinct = distinct index / consumed tape prefix per check; adapters-table / pairs-adapters / adapters-random cases are histories over the extended alphabet (every Iterator / DoubleEndedIterator / ExactSizeIterator method and std adapter, by_ref and by value, argument classes 0, 1, rem/2, rem-1, rem, rem+1, rem+7, usize::MAX relative to the remaining length at that moment; for chain/flatten also relative to both lengths): adapters-table enumerates cursor state x (operation, argument class) (all states for n <= 16, a seeded sample for n = 32, 64), pairs-observers enumerates state pair x 4 content modes x {==/!=, hash} (all pairs for n <= 8), pairs-adapters state pair x two-operand (operation, argument class) (all pairs for n <= 4); such a case is non-trivial when it executes at least one operation other than next / next_back / len / size_hint, or a pair observer after at least one pull; the Debug observer of these histories is parametrised by (format specification, sink): adapters-table enumerates cursor state x 24 specifications x 5 sinks; observers-vec / observers-mat (kind of value x specification x sink, fully enumerated) and sources-split (12 kinds of borrowed source x source length 0..=2n+2 x 1..3 rounds, fully enumerated) cases are all non-trivial",
+        rule: "iterator cases are histories over {next, next_back, len, size_hint, {:?}, ==twin, hash, drop-now} with a keep/drop decision of the consumer for every yielded element: the table enumerates every (start,end) x {front-first, back-first, alternating} x 3 consumer policies x 8 operations for each of the 13 vector types, random histories come from proptest byte tapes; a history is non-trivial when it pulls from both ends and the iterator is dropped with >= 1 element still inside, or when it formats/compares/hashes after >= 1 pull; conversion and view cases (finite, fully enumerated) are all non-trivial: every element is a distinct Tracked id; distinct = distinct index / consumed tape prefix per check; adapters-table / pairs-adapters / adapters-random cases are histories over the extended alphabet (every Iterator / DoubleEndedIterator / ExactSizeIterator method and std adapter, by_ref and by value, argument classes 0, 1, rem/2, rem-1, rem, rem+1, rem+7, usize::MAX relative to the remaining length at that moment; for chain/flatten also relative to both lengths): adapters-table enumerates cursor state x (operation, argument class) (all states for n <= 16, a seeded sample for n = 32, 64), pairs-observers enumerates state pair x 4 content modes x {==/!=, hash} (all pairs for n <= 8), pairs-adapters state pair x two-operand (operation, argument class) (all pairs for n <= 4); such a case is non-trivial when it executes at least one operation other than next / next_back / len / size_hint, or a pair observer after at least one pull; the Debug observer of these histories is parametrised by (format specification, sink): adapters-table enumerates cursor state x 24 specifications x 5 sinks; observers-vec / observers-mat (kind of value x specification x sink, fully enumerated) and sources-split (12 kinds of borrowed source x source length 0..=2n+2 x 1..3 rounds, fully enumerated) cases are all non-trivial; unwind-iter enumerates cursor state x (operation, reduced argument classes 0, rem/2, rem, rem+1, both, usize::MAX) x panic position k (all states and all k for n <= 4, a seeded sample above; for more than 12 calls the positions are spread from the first to the last), unwind-vec / unwind-mat enumerate kind x k; such a case is non-trivial when the injected panic was raised inside the operation (cases whose operation calls no closure at that state, or whose k lies beyond the last call, are counted as trivial)",
         assumptions: &[
             "rustc, std (arrays, Vec, slices, DefaultHasher) and the proptest runner/shrinker are trusted",
             "the oracle is the thread-local ownership ledger of c18::ledger::Tracked (a plain {id,val} struct, so that reading a stale slot is harmless for the harness) plus a deque model of the iterator; neither calls vek",
@@ -1182,9 +1235,10 @@ pub fn property() -> Property {
             "the vector's own Debug is judged as a multiset of elements (field order of {:?} is not documented); Display of vectors in declaration order (documented format), Display of matrices row by row whatever the layout (documented: 'This format doesn't depend on the matrix's storage layout'), the std formatters of slice views / iter() / iter_mut() / arrays in slice order",
             "hashing: only live elements may be looked at; iterators with equal remaining value sequences (and equal vectors) agree on every route (SipHash, a recording hasher's complete call stream, FNV, hash_one, hash_slice of a one-element slice, hash of a tuple) and are one member of a HashSet; nothing is asserted about which or how many live elements a hash looks at, nor about unequal values",
             "FromIterator from a BORROWED source takes exactly min(n, available) elements and leaves all others in the source (reading of 'transfers each element exactly once': an element pulled and then dropped is in neither the vector nor the source, i.e. lost); whether next() is called again after the source returned None is recorded as a label, not judged; sources only report legal size hints (exact, (0,None), (n,None), (0,Some(n+5)))",
-            "not exercised: panicking element constructors / Default::default / element Debug impls during conversions and formatting (vek's docs say nothing about unwinding); Sum / Product over iterators of vectors (arithmetic on Copy scalars, no ownership to track); from_slice needs T: Copy, so it cannot clone a tracked element (covered with u32 elements in conv-*); dbg! itself (it is {:#?} into stderr, which is exercised as a format specification)",
+            "unwinding: a panic of a user closure or of an element's Default / Debug / Display / PartialEq / Ord / Hash impl is injected by c18::ledger::tick (message c18-injected-panic) and caught with vkit::catch under the driver's panic hook; it must come out of the operation unchanged. Afterwards everything that survived is used up and dropped and the ledger must show no double drop, no second hand-out, no container drop of a handed-out element and no read of a yielded / dropped element (Rust's safety contract holds during unwinding); elements that end up neither yielded nor dropped (leaked) are allowed and labelled. A surviving by-ref iterator must stay memory-safe, but a panic of its own when it is used or dropped after the injected panic is tolerated (labelled, not judged). The number of closure calls T of an iterator operation is measured by running the same generic code on the deque model; for the Hash / == observers, where nothing is promised about which elements are looked at, a fuse that is not reached is not judged. Element Drop impls never panic (a second panic during unwinding aborts the process, which no implementation can avoid)",
+            "not exercised: Sum / Product over iterators of vectors (arithmetic on Copy scalars, no ownership to track); from_slice needs T: Copy, so it cannot clone a tracked element (covered with u32 elements in conv-*); dbg! itself (it is {:#?} into stderr, which is exercised as a format specification)",
             "std's StepBy::nth needs ~2^64 loop rounds when both the step and n are usize::MAX (overflow resolution loop in std, independent of vek): for that one adapter both factors are capped at 2^20; nth / nth_back / skip / take / step_by themselves are exercised with usize::MAX",
-            "panics of user closures / element Drop inside iterator methods are not exercised (the property does not speak about unwinding); advance_by, next_chunk, array_chunks, is_empty and the other unstable iterator methods are not callable on the pinned stable toolchain and are reached only through the stable methods built on them",
+            "advance_by, next_chunk, array_chunks, is_empty and the other unstable iterator methods are not callable on the pinned stable toolchain and are reached only through the stable methods built on them",
             "FromIterator fills the tail of a short source with Default values (T: Default bound; from_slice doc: elements are initialized to their default values) and never stores surplus elements",
         ],
         checks,
